@@ -150,12 +150,43 @@ def failure_sites_full_stack(r):
                     lambda mid, to: TextMessageProtocolEntity(u"body of %s \u2713" % mid, MessageMetaAttributes(id=mid, recipient=to)))
 
 
+def unconvertible_success(r):
+    """A failure on the way up in the authentication layer: the server's <success/> lacks the attributes its entity needs.  The error is
+    reported to whoever delivered the stanza, and the stack stays usable: the session counts as authenticated (the keep-alive runs and its
+    ping is answered normally, an application request goes out)."""
+    from harness.props import c16
+    roots = e2ekit.Roots()
+    try:
+        r.case(("unconvertible-success",))
+        r.cov["traces_validated_against_impl"] += 1
+        w = c16.World(True, True)
+        hist = [{"name": "ConnectRequest"}, {"name": "DispatcherConnected"}, {"name": "Success", "malformed": True}, {"name": "PingTick"}, {"name": "Pong", "id": 1}, {"name": "PingTick"}]
+        try:
+            w.start()
+            for act in hist:
+                w.do(act)
+            pings = [x for x in w.wire if x[0] == "ping"]
+            disc = [x for x in w.wire if x[0] == "disconnect"]
+            reported = any(p[0] == "receive-raised" for p in w.problems)
+            other = [p for p in w.problems if p[0] != "receive-raised"]
+            if len(pings) != 2 or disc or "authed" not in w.app or other:
+                r.violation("wedged:unconvertible-success", "history %s with a <success/> the authentication layer cannot convert: keep-alive pings on the wire %d (expected 2), disconnects %d, application saw %s, error reported %s, %s" % (
+                    [h["name"] for h in hist], len(pings), len(disc), w.app, reported, other[:1]), {"history": hist})
+        except sched.Deadlock as e:
+            r.violation("wedged:unconvertible-success", "history %s hangs: %s" % ([h["name"] for h in hist], e), {"history": hist})
+        finally:
+            w.close()
+    finally:
+        roots.close()
+
+
 def extras(r):
     receive_failure_real_dispatchers(r)      # real threads: before any deterministic scheduler is installed
     failure_sites_full_stack(r)
     # a connection that dies under a write of the default (asyncore) dispatcher: nobody blocks, the end is reported (sendpath.py)
     sendpath.asyncore_flush_race(r, random.Random(core.seed() + 121), 45 if r.tier == "thorough" else 24)
     keepalive_callback_failure(r)
+    unconvertible_success(r)
     redundant_disconnect(r)
     key_request_failure(r)
 
